@@ -378,12 +378,12 @@ func TestVerifC05Q(t *testing.T) {
 			after := vfC05qVerdicts(out, seed0)
 			if again := vfC05qCoq(q); again != qCoq {
 				vfOracleFail(rw.name+":mutates-input", rw.name+" modified the tree it was given",
-					map[string]any{"rewrite": rw.name, "query": q.String(), "before": qCoq, "after": again})
+					map[string]any{"rewrite": rw.name, "query": q.String(), "before": qCoq, "after": again, "seed": vfSeed(), "n": n, "iteration": i})
 			}
 			if before != after {
 				vfOracleFail(rw.name+":valuation", rw.name+" changes the truth value of the query under some valuation of its atoms: "+q.String()+" => "+out.String(),
 					map[string]any{"rewrite": rw.name, "query": q.String(), "query_coq": qCoq, "rewritten": out.String(),
-						"valuation_seeds_from": seed0, "verdicts_before": before, "verdicts_after": after})
+						"valuation_seeds_from": seed0, "verdicts_before": before, "verdicts_after": after, "seed": vfSeed(), "n": n, "iteration": i})
 			}
 			outCoq := vfC05qCoq(out)
 			changed := outCoq != qCoq
